@@ -897,7 +897,8 @@ def c02_verify(ctx, shapes, with_digest):
                 m = e.solver.model()
                 g = lambda xs: bytes(m.eval(x, model_completion=True).as_long() for x in xs).hex()  # noqa: E731
                 return dict(shape="/".join(shape), content=g(inp["content"]), rsa=g(inp["rsa"]), dsa=g(inp["dsa"]), pgp=g(inp["pgp"]),
-                            b64=[g(x) for x in inp["b64"]], sha256=g(inp["sha256"]), digest=with_digest)
+                            b64=[g(x) for x in inp["b64"]], sha256=g(inp["sha256"]), digest=with_digest,
+                            accepts=("".join("1" if c[2] else "0" for c in v[1].calls) if k == "return" else ""))
             if k != "return":
                 ctx.fail("signature verification panics: %s" % (v,), "Package::verify_signature", kind="panic", **wit())
                 return
@@ -995,15 +996,18 @@ def replay_c02(ctx, fl):
         elif st == "wrong":
             add(name, "StringTag", b"abc\0", 1)
     pkg = RB.package(sig_e, sig_s, [(tag("RPMTAG_NAME"), "StringTag", 0, 1)], b"x\0", bytes.fromhex(fl["content"]))
-    ans = ctx.native.ask("sigverify", pkg.hex(), "1111")
+    pattern = fl.get("accepts") or "1111"
+    if fl["kind"] != "c02":
+        pattern = "1111"
+    ans = ctx.native.ask("sigverify", pkg.hex(), pattern)
     parts = dict(x.split("=") for x in ans.split()[1:]) if " " in ans else {}
     res = ans.split()[0]
     if fl["kind"] == "panic":
         return res == "panic", "real crate: " + ans
     if fl["kind"] == "c02":
         ncalls = int(parts.get("calls", "0"))
-        bad = res == "ok" and (ncalls == 0 or "x" in parts.get("covers", ""))
-        return bad, "real crate with an all-accepting verifier: %s" % ans
+        bad = res == "ok" and (ncalls == 0 or "x" in parts.get("covers", "") or "0" in pattern[:ncalls])
+        return bad, "real crate with a verifier answering %s (1 = accept): %s" % (pattern, ans)
     if fl["kind"] == "c02live":
         return res != "ok", "real crate with an all-accepting verifier: %s" % ans
     return False, "unknown kind"
@@ -1139,7 +1143,20 @@ def c09_from_entries(ctx, variants, counts, which="IndexTag", region="RPMTAG_HEA
         def wit():
             assert e.solver.check() == z3.sat
             m = e.solver.model()
-            return dict(tags=[m.eval(t, model_completion=True).as_long() for t in tags], types=variants, counts=counts)
+
+            def ev(x):
+                return m.eval(x, model_completion=True).as_long()
+
+            def pv(variant, pl):
+                if variant in ("Char", "Int8", "Bin"):
+                    return [ev(b) for b in as_bytes(e, pl)]
+                if variant in ("Int16", "Int32", "Int64"):
+                    return [ev(x.e) for x in pl.items]
+                if variant == "StringTag":
+                    return bytes(ev(b) for b in as_bytes(e, pl)).hex()
+                return [bytes(ev(b) for b in as_bytes(e, x)).hex() for x in pl.items]
+            return dict(tags=[ev(t) for t in tags], types=variants, counts=counts, payloads=[pv(v_, p_) for v_, p_ in zip(variants, pls)], which=which, region=region,
+                        hname=ctx.hname)
         if k != "return":
             ctx.fail("header assembly fails: %s %s" % (k, v), "Header::from_entries", kind="c09", **wit())
             return
@@ -1175,8 +1192,30 @@ def c09_from_entries(ctx, variants, counts, which="IndexTag", region="RPMTAG_HEA
     ex.run_all(setup, body, on_path)
 
 
+def rust_index_data(variant, pl):
+    if variant in ("Char", "Int8", "Bin"):
+        return "IndexData::%s(vec![%s])" % (variant, ", ".join("%du8" % b for b in pl))
+    if variant in ("Int16", "Int32", "Int64"):
+        return "IndexData::%s(vec![%s])" % (variant, ", ".join("%du%s" % (x, variant[3:]) for x in pl))
+
+    def lit(h):
+        return "String::from_utf8(vec![%s]).unwrap()" % ", ".join("%du8" % b for b in bytes.fromhex(h))
+    if variant == "StringTag":
+        return "IndexData::StringTag(%s)" % lit(pl)
+    return "IndexData::%s(vec![%s])" % (variant, ", ".join(lit(h) for h in pl))
+
+
 def replay_c09(ctx, fl):
-    return False, "assembly witnesses are not replayed natively (from_entries is crate-private); see the MIR trace"
+    """Header::from_entries is crate-private: the witness becomes a unit test that the driver runs inside the crate
+    (through the cfg(kani) mount of harness/header.rs, `cargo kani playback`)"""
+    if "payloads" not in fl:
+        return False, "no witness recorded"
+    recs = ", ".join("(%du32, %s)" % (t, rust_index_data(v, p)) for t, v, p in zip(fl["tags"], fl["types"], fl["payloads"]))
+    name = "kani_concrete_playback_%s_mir" % fl["hname"]
+    src = ("#[test]\nfn %s() {\n    // witness of the MIR engine for %s\n    let recs: Vec<(u32, IndexData)> = vec![%s];\n"
+           "    if let Err(why) = verif_replay_from_entries::<%s>(recs, %s::%s) {\n        panic!(\"{}\", why);\n    }\n}\n"
+           % (name, fl["hname"], recs, fl["which"], fl["which"], fl["region"]))
+    return False, "Header::from_entries is crate-private: replayed by the driver as an in-crate unit test", {"mount": "header", "group": "plain", "name": fl["hname"], "test": src}
 
 
 REPLAYERS["c09"] = replay_c09
@@ -1592,6 +1631,9 @@ for _nm, _sg in (("sym2", [2]), ("sym3", [3]), ("chown_sym2", [b"cap_chown", 2])
 
 
 def replay_c17(ctx, fl):
+    if fl.get("kind") == "c17level":
+        ans = ctx.native.ask("build_level", fl["which"], str(fl["level"]))
+        return ans == "panic", "real crate (dev profile): PackageBuilder::new(..).compression(CompressionWithLevel::%s(%d)).build() -> %s" % (fl["which"], fl["level"], ans)
     if fl.get("kind") == "c17caps":
         a, b = ctx.native.ask("fcaps", fl["text"]).split()
         return a != b, "real crate: FileOptions::caps accepts=%s, FileCaps::from_str accepts=%s" % (a, b)
@@ -1600,6 +1642,49 @@ def replay_c17(ctx, fl):
 
 
 REPLAYERS["c17"] = replay_c17
+
+
+def c17_level(ctx, which):
+    """Compressor::try_from(CompressionWithLevel::<which>(level)) for every level: Ok or Err, the encoder constructor is never handed a level it panics on"""
+    tf = ctx.find_fn(r"compressor::<impl at [^>]*>::try_from")
+    ex = Exec(ctx.funcs, intrinsics.I)
+    ctx.stats = ex.stats
+    ctx.bounds = "Compressor::try_from(CompressionWithLevel::%s(level)), level any %s; encoder constructors = contract stubs read from the pinned flate2/liblzma/bzip2/zstd sources" % (which, "i32" if which == "Zstd" else "u32")
+
+    lib = {"Gzip": "flate2", "Xz": "liblzma", "Bzip2": "bzip2"}.get(which)
+    if lib:
+        # validate the constructor contract stub against the real encoder crate on concrete levels
+        from intrinsics3 import encoder_panics
+        n = 0
+        for lvl in list(range(0, 13)) + [31, 32, 33, 41, 64, 255, 256, 1 << 31, (1 << 31) | 6, (1 << 31) | 9, (1 << 31) | 10, (1 << 30) | 6, 0xffffffff]:
+            want = z3.is_true(z3.simplify(encoder_panics(lib, z3.BitVecVal(lvl, 32))))
+            got = ctx.native.ask("enc_new", lib, str(lvl))
+            if (got == "panic") != want:
+                raise Exception("encoder contract stub disagrees with the real %s constructor at level %d: stub panics=%s, real=%s" % (lib, lvl, want, got))
+            n += 1
+        ctx.validated = getattr(ctx, "validated", 0) + n
+
+    def setup(e):
+        return z3.BitVec("level", 32)
+
+    def body(e, lv):
+        val = Adt("CompressionWithLevel", which, [Int(lv, "i32" if which == "Zstd" else "u32")]) if which != "None" else Adt("CompressionWithLevel", "None")
+        return e.call_fn(tf, [val])
+
+    def on_path(e, lv, out):
+        k, v = out
+        assert e.solver.check() == z3.sat
+        level = e.solver.model().eval(lv, model_completion=True).as_long()
+        if k != "return":
+            ctx.fail("building with this compression level panics: %s" % (v,), "Compressor::try_from", kind="c17level", which=which, level=level)
+            return
+        ctx.cover("level accepted", v.variant == "Ok")
+        ctx.cover("level rejected", v.variant == "Err")
+    ex.run_all(setup, body, on_path)
+
+
+for _w in ("Gzip", "Xz", "Bzip2", "Zstd", "None"):
+    HARNESSES["c17_level_" + _w.lower()] = (lambda w: (lambda ctx: c17_level(ctx, w)))(_w)
 for _n in range(0, 7):
     HARNESSES["c17_dest_%d" % _n] = (lambda n: (lambda ctx: c17_dest(ctx, n)))(_n)
 
@@ -1690,7 +1775,7 @@ def replay_c08_clear(ctx, fl):
 
 
 REPLAYERS["c08"] = replay_c08_clear
-REPLAYERS["c09"] = lambda ctx, fl: replay_c08_clear(ctx, fl) if "hs" in fl else (False, "assembly witnesses are not replayed natively (from_entries is crate-private)")
+REPLAYERS["c09"] = (lambda prev: (lambda ctx, fl: replay_c08_clear(ctx, fl) if "hs" in fl else prev(ctx, fl)))(REPLAYERS["c09"])
 for _hs in (0, 3):
     for _st in (False, True):
         HARNESSES["c08_clear_%d_%s" % (_hs, "stale" if _st else "empty")] = (lambda a, b: (lambda ctx: c08_clear(ctx, a, b, ("c08",))))(_hs, _st)
@@ -1797,8 +1882,21 @@ def c09_sigpad(ctx):
     def on_path(e, d, out):
         k, v = out
         ctx.cover("computed", k == "return")
-        if k != "return" or e._check(z3.Not(z3.And(z3.ULT(v.e, 8), z3.URem(z3.ZeroExt(8, d) + z3.ZeroExt(8, v.e), 8) == 0))):
-            ctx.fail("signature header padding is not the 0..7 bytes that align the store to 8", "Header::padding_required", kind="sigpad")
+        bad = z3.BoolVal(True) if k != "return" else z3.Not(z3.And(z3.ULT(v.e, 8), z3.URem(z3.ZeroExt(8, d) + z3.ZeroExt(8, v.e), 8) == 0))
+        if e._check(bad):
+            # a small witness if there is one (the replay encodes a signature header with a store of that many bytes)
+            wit = None
+            for lim in (64, 4096, None):
+                e.solver.push()
+                e.solver.add(bad)
+                if lim:
+                    e.solver.add(z3.ULT(d, lim))
+                if e.solver.check() == z3.sat:
+                    wit = e.solver.model().eval(d, model_completion=True).as_long()
+                e.solver.pop()
+                if wit is not None:
+                    break
+            ctx.fail("signature header padding is not the 0..7 bytes that align the store to 8", "Header::padding_required", kind="sigpad", size=wit)
     ex.run_all(lambda e: z3.BitVec("d", 32), lambda e, d: e.call_fn(pr, [Ref(Cell(header([], [], n=0, size=Int(d, "u32"))))]), on_path)
 
 
@@ -1853,7 +1951,19 @@ def c08_filedigest(ctx, same_dest):
 HARNESSES["c08_filedigest_same"] = lambda ctx: c08_filedigest(ctx, True)
 HARNESSES["c08_filedigest_diff"] = lambda ctx: c08_filedigest(ctx, False)
 REPLAYERS["c08"] = (lambda prev: (lambda ctx, fl: replay_filedigest(ctx, fl) if fl.get("kind") == "c08fd" else prev(ctx, fl)))(REPLAYERS["c08"])
-REPLAYERS["c09"] = (lambda prev: (lambda ctx, fl: (False, "padding arithmetic witness: see c01_sigpad_arith (Kani) for a native replay") if fl.get("kind") == "sigpad" else prev(ctx, fl)))(REPLAYERS["c09"])
+def replay_sigpad(ctx, fl):
+    import rpmbytes as RB
+    d = fl.get("size")
+    if d is None or d > 1 << 16:
+        return False, "no witness small enough to encode as a signature header (data section size %r)" % (d,)
+    # a correctly padded file: lead, signature header with one BIN entry of d bytes, 0..7 zero bytes up to the 8-byte boundary, empty main header
+    sig = RB.header([(1000, "Bin", 0, d)] if d else [], b"\x07" * d)
+    meta = RB.lead() + sig + b"\0" * ((8 - d % 8) % 8) + RB.header([], b"")
+    ans = ctx.native.ask("meta_rt", meta.hex())
+    return ans != "ok " + meta.hex(), "real crate: parse -> write of a correctly padded signature header with a %d-byte store -> %s" % (d, ans[:60] + ("..." if len(ans) > 60 else ""))
+
+
+REPLAYERS["c09"] = (lambda prev: (lambda ctx, fl: replay_sigpad(ctx, fl) if fl.get("kind") == "sigpad" else prev(ctx, fl)))(REPLAYERS["c09"])
 
 
 def replay_filedigest(ctx, fl):
